@@ -553,6 +553,50 @@ def run_c18(ctx, ck):
         ctx.samples.append({"case": k[1], "program": prog_source(s["cases"][k])[:300], "observed": decode_run(s["impl"].get(k))})
 
 
+# ---------------------------------------------------------------- C15
+def run_c15(ctx, ck):
+    import re
+    # 1. the transliteration must still quote the library source, line for line and in order
+    src = [l.strip() for l in open("/repo/std/strings.tsh").read().splitlines()]
+    src = [l for l in src if l and not l.startswith("//")]
+    model_text = open("/verif/coq/Lib/StrLib.v").read()
+    pos, missing = 0, []
+    for l in src:
+        i = model_text.find(l, pos)
+        if i < 0:
+            missing.append(l)
+        else:
+            pos = i + len(l)
+    ctx.cov["library_source_lines"] = len(src)
+    ctx.cov["library_source_lines_quoted_in_model"] = len(src) - len(missing)
+    n = 2000 if ctx.tier == "quick" else 0
+    s = ck.run_stream(ctx, "strlib", n)
+
+    def describe(k, s):
+        f = s["cases"][k].split(" ")
+        return "%s(%s)" % (f[0], ", ".join(repr(hexs(x)) if re.fullmatch(r"([0-9a-f]{2})*", x) else x for x in f[1:]))
+
+    def sig(k, s):
+        return {}
+
+    compare(ctx, s, "std/strings compiled and run under /bin/bash against Go's strings (expectation) and against the transliteration lib_f (model)",
+            sig, describe, lambda k, s: True)
+    # 2. the specification go_f against Go's own functions
+    bad = [k for k in s["cases"] if s["model"].get(("gospec", k[1])) != s["expect"].get(k)]
+    ctx.cov["go_spec_validated_cases"] = len(s["cases"]) - len(bad)
+    if bad:
+        k = bad[0]
+        ctx.violation("the specification go_f (coq/Lib/GoStrings.v) disagrees with Go's strings package on %d of %d argument tuples\nfirst: %s\nGo: %s\nspec: %s\n"
+                      "the C15 theorems are stated against this specification\n" % (len(bad), len(s["cases"]), describe(k, s), s["expect"].get(k), s["model"].get(("gospec", k[1]))),
+                      found_input=False)
+    if missing and not ctx.violations:
+        ctx.violation("std/strings.tsh changed: %d source lines are no longer quoted (in order) by the transliteration coq/Lib/StrLib.v, e.g. %r\n"
+                      "no behavioural difference was found on the generated argument tuples\n" % (len(missing), missing[0]), found_input=False)
+    ctx.cov["distribution"] = s["meta"]
+    for k in list(s["cases"])[:3]:
+        ctx.samples.append({"call": describe(k, s), "observed": s["impl"].get(k), "go": s["expect"].get(k)})
+
+
 # ---------------------------------------------------------------- C14
 def run_c14(ctx, ck):
     n = 40 if ctx.tier == "quick" else 1500
@@ -591,6 +635,12 @@ SEM_TRUST = ["coq/Sem/Src.v is the specification of program meaning (validated o
              "the generator's notion of 'defined behaviour' (harness/proggen.go) bounds what is explored"]
 
 PROPS = {
+    "C15": {"run": run_c15,
+            "rule": "argument tuples over strings of length 0-4 (0-5 for TrimSpace) on the alphabet {a, b, blank}, counts -2..4, slices of 0-4 elements; quick: 2000 distinct tuples "
+                    "spread over the 19 functions with short/empty arguments dense; thorough: every function's space exhaustively below 60000 tuples, 20000 samples above",
+            "trusted": ["Lib/GoStrings.v is a specification of Go's strings functions (validated against the real functions on every run)",
+                        "Lib/StrLib.v mirrors std/strings.tsh (source lines checked, behaviour compared with the compiled library on every run)"],
+            "assumptions": ["ASCII arguments; values without trailing newline in slice elements (C08 known finding)"]},
     "C08": {"run": run_c08,
             "rule": "quick: every (data path, origin, character class) triple with at least one content (2200 programs); thorough: the whole sweep "
                     "(97 characters x 4 positions + 55 special strings) x 12 paths x 4 origins = 21228 programs, each executed under /bin/bash with a canary "
